@@ -183,6 +183,7 @@ class FnSpec:
         self.closures = {}      # k -> text
         self.iters = {}         # k -> name
         self.proofs = []        # (anchor, text)
+        self.ghosts = []        # `let ghost x = ..;` lines put at function entry (snapshot of a `mut` parameter)
         self.trusted = False
         self.no_canary = None
         self.returns = "r"
@@ -209,6 +210,8 @@ def parse_vspec(text: str, path: str) -> dict:
             cur.closures[section[1]] = t
         elif section[0] == "proof":
             cur.proofs.append((section[1], t))
+        elif section[0] == "ghost":
+            cur.ghosts.append(t)
         buf = []
 
     for ln, line in enumerate(text.splitlines(), 1):
@@ -240,6 +243,9 @@ def parse_vspec(text: str, path: str) -> dict:
         elif s.startswith("@proof "):
             flush()
             section = ("proof", s[len("@proof "):].strip())
+        elif s == "@ghost":
+            flush()
+            section = ("ghost", 0)
         elif s == "@trusted":
             cur.trusted = True
         elif s.startswith("@no_canary"):
@@ -308,6 +314,14 @@ def splice_body(body: str, spec: FnSpec, n_loops: int, key: str) -> str:
     body = re.sub(r"(\|[^|]*\|)\s*\{\s*__vx_(diverge|closure)!\((\d+)\);", clos, body)
     if "__vx_" in body:
         raise Undecided(f"{key}: unreplaced marker")
+    # ghost snapshots at entry: only `let ghost <name> = <expr>;` lines are accepted
+    if spec:
+        for text in spec.ghosts:
+            for gl in text.split("\n"):
+                if gl.strip() and not re.match(r"^\s*let ghost [A-Za-z_][A-Za-z_0-9]*(\s*:[^=;]+)?\s*=[^;]*;\s*$", gl):
+                    raise Undecided(f"{key}: @ghost accepts only `let ghost x = e;` lines: {gl!r}")
+            i = body.index("{")
+            body = body[:i + 1] + "\n" + text + body[i + 1:]
     # proof insertions
     if spec:
         for anchor, text in spec.proofs:
@@ -530,6 +544,10 @@ def assemble(unit: dict, scratch: str, passname="A") -> Assembled:
             attrs = ""
             if sp and sp.trusted:
                 attrs = "#[verifier::external_body]\n"
+            if sp and sp.opts.get("loop_isolation") == "false":
+                # verifier attribute only: loops keep the facts established before them (needed when an early
+                # `return` inside a loop must be related to the initial value of a `mut` parameter)
+                attrs += "#[verifier::loop_isolation(false)]\n"
             start = lines + 1
             ret_name = (sp.opts.get("ret") if sp else None) or ("res" if any(p["name"] in ("r", "mut r") for p in f["params"]) else "r")
             hdr = fn_header(f, ret_name=ret_name)
